@@ -2,6 +2,7 @@
 
 from __future__ import annotations
 
+import asyncio
 import types
 from typing import Any
 
@@ -45,6 +46,7 @@ def make(n_requests: int, mixed: bool = False, unacked_first: bool = False):
                 events: list[Any] = []
                 dev = {"seq": 0, "requests_seen": 0, "last_req_key": None}
                 conn_box: list[Any] = []
+                probe = {"on": False}
 
                 def deliver(raw: bytes, label: str) -> None:
                     """One frame from the bus -> real receive path; per-transition reference for ACK / acceptance."""
@@ -106,8 +108,8 @@ def make(n_requests: int, mixed: bool = False, unacked_first: bool = False):
                             events.append((round(loop.time(), 3), f"tx data({cseq}) A_Restart", "ack", "no-response"))
                             loop.call_later(0.01, deliver, frame(DEV, 0xC2 | cseq << 2, None), f"T_ACK({cseq})")
                             return
-                        a = ch.choose("dev-ack", len(ACKS))
-                        r = ch.choose("dev-resp", len(RESPS))
+                        a = 0 if probe["on"] else ch.choose("dev-ack", len(ACKS))
+                        r = 0 if probe["on"] else ch.choose("dev-resp", len(RESPS))
                         events.append((round(loop.time(), 3), f"tx data({cseq})", ACKS[a], RESPS[r]))
                         ack_t, resp_t = 0.01, 0.01
                         if RESPS[r] == "response-before-ack":
@@ -185,8 +187,34 @@ def make(n_requests: int, mixed: bool = False, unacked_first: bool = False):
                     except ManagementConnectionError as exc:
                         results.append(("disconnect", type(exc).__name__))
 
-                u = w.spawn(user(), name="harness-user")
-                loop.run_until(15 * n_requests + 30)
+                async def user_then_probe() -> None:
+                    await user()
+                    # what the session leaves behind in Management: a second session on the same XKNX object to the same device,
+                    # which now behaves (no choice points), is judged by the same rules
+                    await asyncio.sleep(5)
+                    probe["on"] = True
+                    dev["seq"] = 0
+                    try:
+                        conn2 = await xknx.management.connect(IndividualAddress(DEV))
+                    except ManagementConnectionError as exc:
+                        results.append(("probe-connect", type(exc).__name__))
+                        return
+                    conn_box[:] = [conn2]
+                    t0 = loop.time()
+                    try:
+                        resp = await conn2.request(DeviceDescriptorRead(descriptor=0))
+                        results.append(("probe", "ok", resp.tpci.sequence_number, type(resp.payload).__name__, t0, loop.time()))
+                    except ManagementConnectionError as exc:
+                        results.append(("probe", type(exc).__name__, str(exc)[:40], None, t0, loop.time()))
+                    except BaseException as exc:  # noqa: BLE001
+                        results.append(("probe", "OTHER:" + type(exc).__name__, repr(exc)[:80], None, t0, loop.time()))
+                    try:
+                        await xknx.management.disconnect(IndividualAddress(DEV))
+                    except ManagementConnectionError as exc:
+                        results.append(("probe-disconnect", type(exc).__name__))
+
+                u = w.spawn(user_then_probe(), name="harness-user")
+                loop.run_until(15 * n_requests + 60)
                 if not u.done():
                     viols.append(("request-never-returns", f"results={results}; events={events}"))
                 elif u.cancelled() or texc(u) is not None:
@@ -209,13 +237,25 @@ def make(n_requests: int, mixed: bool = False, unacked_first: bool = False):
                         viols.append((f"request-raises-undeclared:{kind[6:]}", f"request #{i}: {a}; events={events}"))
                     elif "unexpected telegram" in str(a):
                         consumed += 1
+                for res in results:
+                    if res[0] == "probe":
+                        _p, kind, a, b, t0, t1 = res
+                        if kind == "ok" and (b != "DeviceDescriptorResponse" or a != 0):
+                            viols.append(("second-session:wrong-response-returned", f"the request of a second, undisturbed session returned {b} numbered {a}; results={results}; events={events}"))
+                        elif kind.startswith("OTHER:"):
+                            viols.append((f"second-session:request-raises-undeclared:{kind[6:]}", f"{a}; results={results}; events={events}"))
+                        elif t1 - t0 > MAX_REQUEST_S:
+                            viols.append(("second-session:request-exceeds-time-bound", f"{t1 - t0:.2f}s; events={events}"))
                 if len({id(r) for r in returned}) != len(returned):
                     viols.append(("response-used-twice", f"results={results}; events={events}"))
                 # ---- outgoing numbering: new data frames count up mod 16, a repetition reuses its number
-                data = [(t, tg) for t, tg in sent if isinstance(tg.tpci, T.TDataConnected)]
+                data = [(t, tg) for t, tg in sent if isinstance(tg.tpci, T.TDataConnected | T.TConnect)]
                 expect = 0
                 prev = None
                 for t, tg in data:
+                    if isinstance(tg.tpci, T.TConnect):
+                        expect, prev = 0, None   # numbering is per connection
+                        continue
                     n = tg.tpci.sequence_number
                     if prev is not None and n == prev[0] and t - prev[1] >= 2.99:
                         pass  # repetition after the ACK timeout
@@ -227,6 +267,8 @@ def make(n_requests: int, mixed: bool = False, unacked_first: bool = False):
                 for name, exc in loop.task_failures():
                     viols.append((f"task-exception:{type(exc).__name__}", f"{name}: {exc!r}; events={events}"))
                 for c in loop.exceptions:
+                    if c.get("message") == "Future exception was never retrieved" and isinstance(c.get("exception"), ManagementConnectionError):
+                        continue   # reported when the garbage collector finds the future (timing outside the explorer's control); a declared error nobody waited for
                     viols.append((f"loop-exception:{type(c.get('exception')).__name__}", repr(c)[:200] + f"; events={events}"))
                 ch.notes.append(",".join(str(r[1]) for r in results))
                 ch.state(tuple((r[0], r[1]) for r in results))
